@@ -49,6 +49,7 @@ CONSTANTS
   MaxRestarts,    \* bound on operator RestartStage requests
   MaxRegions,     \* bound on CancelRegion requests
   MaxFaults,      \* bound on injected failures of the durable duplicate look-up
+  MaxAdds,        \* bound on AddMultiInstance requests (at most the number of instance stages P declares)
   SplitSweep,     \* TRUE: a recovery sweep may run CONCURRENTLY with the handlers (read / look up / push as separate steps)
   TrustNegative   \* dedup_trust_negative_cache: a negative answer of an authoritative filter skips the durable check
 
@@ -79,13 +80,15 @@ LiveSet(s)    == TaskSet(s) \cap DOMAIN tk                            \* task ro
 LiveTasks(s)  == SelectSeq(P.tasks[s], LAMBDA t : t \in DOMAIN tk)
 StageOf(t)    == P.stageOf[t]
 Upstream(s)   == P.req[s]
-TopLevel      == {s \in Stages : P.parent[s] = ""}
+Static        == {s \in Stages : P.parent[s] = "" /\ P.instk[s] = 0}   \* the top-level stages the workflow is created with
+(* WCP-15: instance stages added at run time by AddMultiInstance are top-level stages too, from the moment their row exists *)
+TopLevel      == {s \in Stages : P.parent[s] = "" /\ (P.instk[s] > 0 => s \in DOMAIN st)}
 Children(s)   == {c \in Stages : P.parent[c] = s}
 Kids(s, ph)   == {c \in Children(s) : P.owner[c] = ph}                \* synthetic children the builder creates
 First(s, ph)  == {c \in Kids(s, ph) : P.req[c] = {}}                   \* is_initial(): children may be chained among themselves
 InOrder(S)    == SelectSeq(P.stages, LAMBDA x : x \in S)       \* a set of stages in store order
-Downstream(s) == {d \in Stages : s \in P.req[d]}
-Initial       == {s \in TopLevel : P.req[s] = {}}
+Downstream(s) == {d \in Stages : s \in P.req[d] /\ (P.instk[d] > 0 => d \in DOMAIN st)}
+Initial       == {s \in Static : P.req[s] = {}}
 SignalTargets == {s \in Stages : \E i \in DOMAIN P.tasks[s] : P.beh[P.tasks[s][i]].k = "suspend"}
 IdxStage(s)   == CHOOSE i \in DOMAIN P.stages : P.stages[i] = s
 IdxOf(t)      == CHOOSE i \in DOMAIN TasksOf(StageOf(t)) : TasksOf(StageOf(t))[i] = t
@@ -135,6 +138,7 @@ PauseTaskM(t)        == Proto("PauseTask", StageOf(t), t)
 ResumeStageM(s)      == Proto("ResumeStage", s, "")
 RestartStageM(s)     == Proto("RestartStage", s, "")
 ContinueParentM(s, ph) == [Proto("ContinueParentStage", s, "") EXCEPT !.phase = ph]
+AddInstanceM(s)      == Proto("AddMultiInstance", s, "")
 CancelRegionM(r)     == [Proto("CancelRegion", "", "") EXCEPT !.sig = r]     \* (the region name travels in the `sig` field)
 
 CountKey(pp, typ, s, t) == Cardinality({x \in pp : x[1] = typ /\ x[2] = s /\ x[3] = t})
@@ -241,16 +245,16 @@ Label(n)   == lbl' = [name |-> n, mid |-> wk.mid, c |-> TRUE]    \* a step that 
 LabelN(n)  == lbl' = [name |-> n, mid |-> wk.mid, c |-> FALSE]   \* a step without commit
 
 StageRow0 == [status |-> "NOT_STARTED", ver |-> 0, started |-> FALSE, fired |-> FALSE, cb |-> {},
-              act |-> {"-"}, bypass |-> FALSE, jumps |-> 0, buf |-> <<>>, sig |-> ""]   \* buf: names of buffered signals, sig: _signal_name
+              act |-> {"-"}, bypass |-> FALSE, jumps |-> 0, buf |-> <<>>, sig |-> "", mi |-> 0]   \* buf: names of buffered signals, sig: _signal_name
 TaskRow0  == [status |-> "NOT_STARTED", ver |-> 0, prog |-> 0, seen |-> {}]   \* seen: signal names a suspending task has counted
 SwIdle    == [phase |-> "idle", rows |-> [wf |-> [status |-> "", canceled |-> FALSE], st |-> <<>>, tk |-> <<>>], msgs |-> <<>>]
 Cnt0      == [crashes |-> 0, withheld |-> 0, sweeps |-> 0, cancels |-> 0, signals |-> 0, early |-> 0,
-              pauses |-> 0, unpauses |-> 0, restarts |-> 0, regions |-> 0, faults |-> 0, needSweep |-> FALSE, sw |-> SwIdle]
+              pauses |-> 0, unpauses |-> 0, restarts |-> 0, regions |-> 0, faults |-> 0, adds |-> 0, needSweep |-> FALSE, sw |-> SwIdle]
 
 Init ==
   /\ wf = [status |-> "NOT_STARTED", canceled |-> FALSE]
-  /\ st = [s \in TopLevel |-> StageRow0]
-  /\ tk = [t \in {x \in AllTasks : StageOf(x) \in TopLevel /\ ~P.lazy[StageOf(x)]} |-> TaskRow0]   \* a lazy stage's tasks are built when it is planned
+  /\ st = [s \in Static |-> StageRow0]
+  /\ tk = [t \in {x \in AllTasks : StageOf(x) \in Static /\ ~P.lazy[StageOf(x)]} |-> TaskRow0]   \* a lazy stage's tasks are built when it is planned
   /\ LET r == PushSeq({}, {}, 1, <<StartWorkflowM>>) IN q = r.q /\ pushed = r.pushed /\ nextId = r.nid
   /\ dlq = {} /\ done = {} /\ claims = <<>>
   /\ wk = [pc |-> "idle", mid |-> NoMsg, out |-> "", sib |-> <<>>, kids |-> <<>>, seen |-> {}, auth |-> TRUE]   \* hydrated from an empty store
@@ -850,6 +854,30 @@ CancelRegion ==
           /\ SetWk("hdone") /\ Label("CancelRegion")
           /\ UNCHANGED <<wf, st, tk, dlq, claims, ledger, gh, cnt>>
 
+(* handlers/add_multi_instance.py (WCP-15): THREE commits - the parent's instance counter with the processed mark, the new
+   instance's row (add_stage), its StartStage (queue.push).  The instance is a top-level stage whose only prerequisite
+   is the multi-instance stage; P declares the instances that may come into being (P.instk = their number). *)
+InstRef(s, k) == CHOOSE d \in Stages : P.instk[d] = k /\ P.req[d] = {s}
+AddMultiInstance ==
+  /\ H("AddMultiInstance")
+  /\ LET s == Cur.s IN
+     IF ~P.midyn[s] \/ st[s].status \in Complete
+     THEN NoCommit("AddInstanceRefused")
+     ELSE /\ st' = [Bump(st, s) EXCEPT ![s].mi = @ + 1] /\ tk' = Touch(tk, s)
+          /\ Commit(<<>>, TRUE)
+          /\ wk' = [wk EXCEPT !.pc = "mi_row", !.out = InstRef(s, st[s].mi + 1)] /\ Label("AddInstanceCount")
+          /\ UNCHANGED <<wf, dlq, claims, ledger, gh, cnt>>
+AddInstanceRow ==
+  /\ wk.pc = "mi_row"
+  /\ st' = AddRows(st, wk.out) /\ tk' = AddTasks(tk, wk.out)
+  /\ NoQueueChange /\ SetWk("mi_push") /\ Label("AddInstanceRow")
+  /\ UNCHANGED <<wf, dlq, claims, ledger, gh, cnt>>
+AddInstancePush ==
+  /\ wk.pc = "mi_push"
+  /\ Commit(<<StartStageM(wk.out)>>, FALSE)
+  /\ SetWk("hdone") /\ Label("AddInstancePush")
+  /\ UNCHANGED <<wf, st, tk, dlq, claims, ledger, gh, cnt>>
+
 (* handlers/jump_to_stage: traversal.py + reset.py + handler.py.  All mutations of one jump, the
    processed mark and the StartStage of the target are ONE transaction. *)
 RECURSIVE Closure(_)
@@ -983,6 +1011,7 @@ Handlers ==
   \/ CompleteStage \/ SkipStage \/ CancelStage \/ CompleteWorkflow
   \/ CancelWorkflowFlag \/ CancelWorkflowTxn \/ JumpToStage \/ SignalStage
   \/ PauseTask \/ ResumeStage \/ RestartStage \/ CancelRegion
+  \/ AddMultiInstance \/ AddInstanceRow \/ AddInstancePush
   \/ StartStageCancelSibling \/ StartStageAddChild \/ CompleteStageAddAfter \/ ContinueParent
 
 -----------------------------------------------------------------------------
@@ -1111,6 +1140,13 @@ SendCancelRegion(r) ==   \* queue.push(CancelRegion(region = r))
   /\ lbl' = [name |-> "SendCancelRegion", mid |-> <<"CancelRegion", r, "", 0>>, c |-> TRUE]
   /\ UNCHANGED <<wf, st, tk, dlq, claims, wk, ledger, gh>>
 
+SendAddInstance(s) ==    \* queue.push(AddMultiInstance(stage_id = s))
+  /\ EnvOK /\ cnt.adds < MaxAdds /\ s \in DOMAIN st /\ P.midyn[s]
+  /\ Commit(<<AddInstanceM(s)>>, FALSE)
+  /\ cnt' = [cnt EXCEPT !.adds = @ + 1]
+  /\ lbl' = [name |-> "SendAddInstance", mid |-> <<"AddMultiInstance", s, "", 0>>, c |-> TRUE]
+  /\ UNCHANGED <<wf, st, tk, dlq, claims, wk, ledger, gh>>
+
 SendSignal(s, pers) ==
   /\ EnvOK /\ cnt.signals < MaxSignals /\ s \in DOMAIN st
   /\ Commit(<<SignalM(s, pers, cnt.signals + 1)>>, FALSE)
@@ -1161,6 +1197,7 @@ Environment ==
   \/ \E s \in SignalTargets, pers \in BOOLEAN : SendSignal(s, pers)
   \/ PauseWorkflow \/ Unpause \/ (\E s \in TopLevel : SendRestart(s))
   \/ \E r \in {P.region[s] : s \in Stages} : SendCancelRegion(r)
+  \/ \E s \in Stages : SendAddInstance(s)
 
 Processor == (\E m \in q : Poll(m)) \/ Dedup \/ DedupTrusted \/ DedupFault \/ HRet \/ PostMark \/ Ack \/ Withhold \/ HRaise \/ Reschedule
 
